@@ -138,9 +138,13 @@ def jsonable(o: Any) -> Any:
 
 def load_known(pid: str) -> dict[str, str]:
     out: dict[str, str] = {}
-    if not KNOWN.exists():
-        return out
-    for line in KNOWN.read_text().splitlines():
+    lines: list[str] = []
+    if KNOWN.exists():
+        lines += KNOWN.read_text().splitlines()
+    extra = ROOT / "findings.d" / f"{pid}.txt"
+    if extra.exists():
+        lines += extra.read_text().splitlines()
+    for line in lines:
         line = line.strip()
         if not line.startswith("finding:"):
             continue
